@@ -90,9 +90,11 @@ def load_merchant_rules(csv_path):
 
             rules.append((
                 CsvRegexPattern(parsed.regex_pattern),  # Pure regex for matching
-                row['Merchant'],
-                row['Category'],
-                row['Subcategory'],
+                # (a line with fewer cells than the header has columns: the missing
+                # cells are empty cells, not the text "None")
+                row['Merchant'] or '',
+                row['Category'] or '',
+                row['Subcategory'] or '',
                 parsed,  # Full parsed pattern with conditions
                 tags  # List of tags
             ))
